@@ -45,6 +45,21 @@ CHECKS = {
     note='Heap and MPI-object balance are measurements on executed scripts (labelled so in the evidence). Trusted: Lean kernel + 3 axioms, harness/c17_life.c (PMPI shim, fork isolation).',
     technique='Lean 4 proof (invariant by induction over lifecycle operations; variant-parametric id check) + measured resource balance under fork isolation',
     design='§4 C17'),
+ 'C05': dict(
+    text='Proved by induction over every history of good calls, for any number of ranks: in collective data mode every rank\'s record count equals the header field and equals 1 + the highest record written through a completed call; in independent mode nobody is above that value and the next synchronisation restores agreement; counts never decrease and cover each rank\'s own writes (numrecs_inv_partial, sync_restores, own_writes_readable); rank-local calls of different ranks commute (schedule_independent). The unrestricted statement is refuted by three genuine defects (zero-path deadlock F2, partial wait F20, vard without data F21), each with a counterexample theorem and replayed on the real library. 2-4 ranks run seeded histories; after every call each rank\'s inq_dimlen and the header bytes are compared with the model.',
+    note='create/open modelled for the happy path; pending queues hold only puts; MPI-IO visibility of the root\'s header write to other processes\' file reads not modelled. Trusted: Lean kernel + 3 axioms, harness/c05_rec.c.',
+    technique='Lean 4 proof (invariant by induction over histories, unbounded ranks; commutation) + multi-rank differential correspondence',
+    design='§4 C05'),
+ 'C08': dict(
+    text='Proved: every rank executes the same sequence of collective operations for every API, configuration and number of ranks unless some rank\'s input is one of three triggers (trace_rank_independent_partial; full statement proved for the repaired variant, refuted for the current tree with one witness per defect by decide); an operational matcher shows equal sequences complete and unequal ones deadlock (matched_traces_no_deadlock, mismatch_deadlocks); with safe mode off a rank\'s return code depends only on its own input (errors_local). A PMPI shim records each rank\'s real collective sequence for every assignment of {valid, zero-length, each invalid kind} to 2-3 ranks (thorough up to 8) over all collective APIs, compared with the model and across ranks, every case under alarm().',
+    note='Progress inside OpenMPI once sequences match is not modelled; fatal mode errors treated as shared configuration; others_stored is a harness oracle. Trusted: Lean kernel + 3 axioms, harness/c08_coll.c (PMPI shim).',
+    technique='Lean 4 proof (decision logic over input classes + operational matcher by induction) + PMPI-recorded trace correspondence on multiple ranks',
+    design='§4 C08'),
+ 'C12': dict(
+    text='Proved for every log (any mix of valid and cancelled entries) and every buffer size >= the largest entry: the replay rounds concatenate to the whole log so every valid entry is replayed exactly once in order (rounds_partition, replayed_exactly_once), each round fits the buffer, every round makes progress, and the number of rounds executed equals the nrounds the counting pass announces so that all processes perform the same number of collective waits (rounds_eq_count). The REAL ncbbio_log_flush_core is run on hand-built logs with a stub lower driver and its rounds diffed with the model; API programs run with the burst buffer enabled (flush buffer 1 byte..unlimited, shared/per-process logs, retention on/off, 1-4 ranks) must behave exactly as the driver-independent dataset specification and leave no log files.',
+    note='Log encoding on disk, putlist bookkeeping and the sharedfile layer exercised, not modelled; nonblocking API through the burst buffer not in the stream yet; library reconfigured with --enable-burst-buffering for this check. Trusted: Lean kernel + 3 axioms, harness/c12_unit.c, harness/apirun.c, Spec/Dataset.lean.',
+    technique='Lean 4 proof (induction over the log with fuel = length) + unit correspondence on the real flush function + API-level differential against the specification',
+    design='§4 C12'),
  'C09': dict(
     text='Every numeric conversion primitive of ncx.c (164 scalar primitives + 97 inlined byte-loop elements) is translated from the current source into Lean on every run and proved equal to the written-from-the-rules specification ConvSpec for ALL input values (integers by omega, floats over exact rationals); whole requests of any length are lifted by proved fold theorems (element independence, first error). Known deviations (NaN, 2^63/2^64, float Inf into double) are proved as counterexamples next to the partial theorems and replayed on the compiled C.',
     note='Trusted: Lean kernel + 3 standard axioms; translator tools/gen_ncx.py (clang AST -> Lean, fail-closed, every generated def also executed against the compiled C on ~10^5 boundary/random inputs); IEEE rounding of C casts is a model parameter; get_ix_/put_ix_ byte codecs and the dispatch in convert_swap.m4 are exercised by the harness, not proved.',
